@@ -473,6 +473,7 @@ func c09LoadEverything(t *rapid.T, ctx context.Context, w *c09World) *c09RecCS {
 		c09UseCommit(ctx, t, hc, 0)
 	}
 	rec.setStep("")
+	_ = ddb.Close()
 	return rec
 }
 
@@ -484,6 +485,7 @@ var c09ScanKinds = map[string]bool{
 func c09Case(t *rapid.T, rec *vh.Recorder, skipKnown bool) {
 	ctx := context.Background()
 	w, sh := c09BuildWorld(t, ctx, skipKnown)
+	defer w.ddb.Close()
 	raw := w.storage.NewViewWithDefaultFormat()
 	reach, root := c09Reachable(t, ctx, raw)
 
